@@ -50,6 +50,20 @@ def laneUrl : List String → String
     | _, _, _, _, _, _, _ => "bad-op"
   | _ => "bad-op"
 
+/-- `c01ruri …` (same arguments as `c01url`): only the request target an origin observes. -/
+def laneRuri : List String → String
+  | [raw, rp, cp, sch, base, cq, rq] =>
+    match decodeHex raw, decodePMap rp, decodePMap cp, decodeHex sch, decodeHex base,
+          decodeQMap cq, decodeQMap rq with
+    | some raw, some rp, some cp, some sch, some base, some cq, some rq =>
+      match Req.Url.parseRequestURL
+        { rawURL := raw, rPath := rp, cPath := cp, cScheme := sch, baseURL := base,
+          cQuery := cq, rQuery := rq } with
+      | .ok u => "ruri=" ++ encodeHex (Req.Url.requestURI u)
+      | .error _ => "err"
+    | _, _, _, _, _, _, _ => "bad-op"
+  | _ => "bad-op"
+
 /-- `c01parse <raw>`: `url.Parse` + `String()` + `RequestURI()`. -/
 def laneParse : List String → String
   | [raw] =>
@@ -173,6 +187,7 @@ def lanes : List (String × (List String → String)) := [
   ("c01pipe", lanePipe),
   ("c01h1", laneH1),
   ("c01url", laneUrl),
+  ("c01ruri", laneRuri),
   ("c01parse", laneParse),
   ("c01esc", laneEsc)
 ]
